@@ -88,12 +88,47 @@ class Ops:
         return z3.simplify(self.V.f(sv.e))
 
     # ------------------------------------------------------------ entailment / types
-    def entails(self, st, f, timeout=2000):
+    def entails(self, st, f, timeout=2000, cheap=False):
+        fid = f.get_id()
+        for a in st.pc:
+            if a.get_id() == fid:
+                return True
         s = z3.Solver()
         s.set("timeout", timeout)
-        s.add(st.pc)
+        if cheap:
+            s.add([a for a in st.pc if self.is_cheap(a)])
+        else:
+            s.add(st.pc)
         s.add(z3.Not(f))
         return s.check() == z3.unsat
+
+    _SEQ_KINDS = None
+
+    def is_cheap(self, a):
+        """formula without sequence/string operators (used to answer type questions quickly; dropping
+        hypotheses is sound for entailment)"""
+        i = a.get_id()
+        c = self._ent_cache.get(i)
+        if c is not None:
+            return c
+        if Ops._SEQ_KINDS is None:
+            Ops._SEQ_KINDS = {getattr(z3, n) for n in dir(z3) if n.startswith("Z3_OP_SEQ_") or n.startswith("Z3_OP_STR") or n.startswith("Z3_OP_RE_")}
+        seen, todo, ok = set(), [a], True
+        while todo:
+            e = todo.pop()
+            if e.get_id() in seen:
+                continue
+            seen.add(e.get_id())
+            if z3.is_app(e):
+                if e.decl().kind() in Ops._SEQ_KINDS:
+                    ok = False
+                    break
+                todo.extend(e.children())
+            elif z3.is_quantifier(e):
+                ok = False
+                break
+        self._ent_cache[i] = ok
+        return ok
 
     def feasible(self, st, extra=None, timeout=3000):
         s = z3.Solver()
@@ -106,6 +141,8 @@ class Ops:
     def is_type(self, v, ty):
         """z3 Bool: value v (V term) has static type tag ty."""
         V, w = self.V, self.w
+        if "|" in ty:
+            return z3.Or([self.is_type(v, t) for t in ty.split("|")])
         if ty == "none":
             return V.is_none(v)
         if ty == "bool":
@@ -126,6 +163,8 @@ class Ops:
             return z3.And(V.is_ref(v), w.subclass(w.cls_of(V.r(v)), ty[4:]))
         if ty.startswith("opt:"):
             return z3.Or(V.is_none(v), self.is_type(v, ty[4:]))
+        if ty == "hashalg":
+            return z3.And(V.is_ref(v), V.r(v) >= 1, V.r(v) <= 6)
         if ty in ("any", "V"):
             return z3.BoolVal(True)
         if "|" in ty:
@@ -137,9 +176,9 @@ class Ops:
         if sv.ty is not None and not sv.ty.startswith("opt:") and "|" not in sv.ty:
             return sv.ty
         for t in candidates:
-            if self.entails(st, self.is_type(sv.e, t)):
+            if self.entails(st, self.is_type(sv.e, t), cheap=True):
                 return t
-        if self.entails(st, self.V.is_ref(sv.e)):
+        if self.entails(st, self.V.is_ref(sv.e), cheap=True):
             return "ref:object"
         return None
 
@@ -151,7 +190,7 @@ class Ops:
                 if self.w.src.is_subclass(c, o):
                     return o
         for o in options:
-            if self.entails(st, self.is_type(sv.e, "ref:" + o)):
+            if self.entails(st, self.is_type(sv.e, "ref:" + o), cheap=True):
                 return o
         return None
 
